@@ -12,11 +12,11 @@ import numpy as np
 
 from ..common import Slice, fr, inds_tok, run_driver
 
-MODULE = "PyhmsVerif.Props.C15"
-THEOREMS = ['C15.better_prefix', 'C15.nbDist_spec', 'NBC.sortDesc_sorted', 'NBC.sortDesc_perm']
+MODULE = 'PyhmsVerif.Props.C15Full'
+THEOREMS = ['C15.cluster_eq_spec', 'C15.assemble_eq_spec', 'C15.better_prefix', 'C15.nbDist_spec', 'NBC.sortDesc_sorted', 'NBC.sortDesc_perm', 'C15.sortLex_perm']
 LEVEL = 'proof'
-LEVEL_TEXT = 'Theorems (all populations, tie patterns, both directions): in a best-first sorted list the strictly better individuals are exactly the prefix before the first individual of equal fitness (better_prefix), hence the nearest-better distance computed by the code equals the minimum over the strictly better individuals of the definition, with the tie-with-best rule (nbDist_spec); the sort is a permutation and best-first. Tie: the real clustering is compared with the operational model AND with the declarative definition on every case (size 2-60, dim 1-8, clustered/uniform/collinear/tied/converged); independent reference + metamorphic relations (permutation, binary64-exact translation, power-of-two scaling, mirror).'
-LEVEL_NOTE = 'Trusted: Lean kernel + standard axioms. Partial proof: the theorems establish that the code scan (slice before the first individual of equal fitness, tie with the best attaches to the best) computes exactly the minimum distance over the strictly better individuals of the definition, on the best-first sorted, genome-tie-broken population; the remaining step (assembling the seed list = filtering the definition predicate) is not proved as a list equality — instead both NBC.cluster (operational) and NBC.spec (declarative) are executed on every correspondence case and must both equal the real result. NumPy norms / means are environment, checked against exact squared distances; threshold decisions closer than 1e-9 relative are skipped by the reference monitor (counted), never by the model comparison, which uses the binary64 values the code used.'
+LEVEL_TEXT = 'Theorem C15.cluster_eq_spec (all populations with pairwise distinct genomes, all distance functions, tie patterns, both directions, all distance / truncation factors and means): whatever the model of the code (NBC.cluster: genome-tie-broken stable best-first sort, truncation, slice before the first individual of equal fitness, tie-with-best rule, threshold cut) returns is exactly the declarative set of cluster seeds (NBC.spec) of the kept population for the threshold the code computed; the kept population is best-first and consists of input individuals. Supporting: better_prefix, nbDist_spec, assemble_eq_spec, sort lemmas. Tie: the real clustering is compared with the operational model AND the declarative definition on every case (size 2-60, dim 1-8, clustered/uniform/collinear/tied/converged); independent reference + metamorphic relations (permutation, binary64-exact translation, power-of-two scaling, mirror).'
+LEVEL_NOTE = 'Trusted: Lean kernel + standard axioms; NumPy norms / means are environment (the distance function and the mean are parameters of the theorem), checked against exact squared distances by the harness; threshold decisions closer than 1e-9 relative are skipped by the reference monitor (counted), never by the model comparison, which uses the binary64 values the code used. Invariance under permutation / translation / scaling / mirror is monitored (metamorphic), not proved.'
 TECHNIQUE = "differential correspondence with the Lean NBC model + reference definition + metamorphic relations"
 RULE = "case = (population, distance_factor, truncation_factor, direction); populations: size 2-60, dim 1-8, clustered / uniform / collinear / tied fitness / converged to 1e-12; non-trivial = more than one seed returned or ties present or truncation active; distinct by content hash"
 ASSUMPTIONS = ["genomes pairwise distinct (hypothesis of the property)", "fitness values not NaN"]
